@@ -28,12 +28,19 @@ func (c RouterCfg) String() string {
 }
 
 // Interceptors returns the model-side interceptor set of a config.
+// matchRange accepts "<digits>-<digits>": a value that contains the literal text which may follow it, so the
+// matcher has to reject several candidate split points before the right one.
+func matchRange(s string) bool {
+	i := strings.IndexByte(s, '-')
+	return i > 0 && ref.MatchDigit(s[:i]) && ref.MatchDigit(s[i+1:])
+}
+
 func Interceptors(ic string) ref.Interceptors {
 	switch ic {
 	case "I1":
-		return ref.Interceptors{"digit": ref.MatchDigit, "word": ref.MatchWord, "any": ref.MatchAny}
+		return ref.Interceptors{"digit": ref.MatchDigit, "word": ref.MatchWord, "any": ref.MatchAny, "range": matchRange}
 	case "I2":
-		return ref.Interceptors{"digit": ref.MatchDigit, "word": ref.MatchWord, "any": ref.MatchAny, `\d+`: ref.MatchDigit}
+		return ref.Interceptors{"digit": ref.MatchDigit, "word": ref.MatchWord, "any": ref.MatchAny, "range": matchRange, `\d+`: ref.MatchDigit}
 	}
 	return ref.Interceptors{}
 }
@@ -43,9 +50,9 @@ func (c RouterCfg) Options() []mux.Option {
 	var o []mux.Option
 	switch c.IC {
 	case "I1":
-		o = append(o, mux.WithDigitInterceptor("digit"), mux.WithWordInterceptor("word"), mux.WithAnyInterceptor("any"))
+		o = append(o, mux.WithDigitInterceptor("digit"), mux.WithWordInterceptor("word"), mux.WithAnyInterceptor("any"), mux.WithInterceptor(matchRange, "range"))
 	case "I2":
-		o = append(o, mux.WithDigitInterceptor("digit"), mux.WithWordInterceptor("word"), mux.WithAnyInterceptor("any"), mux.WithDigitInterceptor(`\d+`))
+		o = append(o, mux.WithDigitInterceptor("digit"), mux.WithWordInterceptor("word"), mux.WithAnyInterceptor("any"), mux.WithInterceptor(matchRange, "range"), mux.WithDigitInterceptor(`\d+`))
 	}
 	if c.Trace {
 		o = append(o, mux.WithTrace(hv.TraceH()))
